@@ -11,52 +11,62 @@ import (
 // seqCheck registers a check whose space is "all statement sequences up to a length
 // over an alphabet", judged by the reference-model oracle.
 type seqSpec struct {
-	id, rule           string
-	alpha              []gen.Sym
-	quickLen, thorLen  int
-	maxNest            int
-	sub                *fw.Sub
-	mustSee            []string
-	budgetQ, budgetT   int
-	extra              func(c *fw.Ctx, do func(src string))
-	assumptions        []string
+	id, rule          string
+	alpha             []gen.Sym
+	quickLen, thorLen int
+	maxNest           int
+	sub               *fw.Sub
+	mustSee           []string
+	budgetQ, budgetT  int
+	extra             func(c *fw.Ctx, do func(src string))
+	assumptions       []string
+}
+
+var seqSpecs = map[string]seqSpec{}
+
+// enumSeq enumerates the statement sequences of a spec (also used by C10, C14).
+func enumSeq(s seqSpec, c *fw.Ctx, do func(src, shard string) bool) {
+	if s.extra != nil {
+		s.extra(c, func(src string) { do(src, "") })
+	}
+	maxLen := s.quickLen
+	if c.Thorough() {
+		maxLen = s.thorLen
+	}
+	// iterative deepening so that a deadline leaves a completed bound
+	for L := 1; L <= maxLen; L++ {
+		ok := gen.Sequences(s.alpha, L, s.maxNest, "; ", c.Mine, func(prog, shard string) int {
+			if !do(prog, shard) {
+				return gen.SeqStop
+			}
+			// a compile-time rejection is absorbing: every extension shares the offending
+			// prefix and is rejected with the same first diagnostic
+			if _, diag := ref.Parse(prog); diag != nil {
+				c.Count("rejected_prefixes_not_extended", 1)
+				return gen.SeqNoExtend
+			}
+			return gen.SeqExtend
+		})
+		if !ok {
+			c.Cap(fmt.Sprintf("%s: deadline during sequences of length %d", s.id, L))
+			return
+		}
+		c.Bound(s.id+"_sequence_length_completed", L)
+	}
+	c.Bound(s.id+"_alphabet_size", len(s.alpha))
+	c.Bound(s.id+"_max_nesting", s.maxNest)
 }
 
 func registerSeq(s seqSpec) {
+	seqSpecs[s.id] = s
 	fw.Register(&fw.Check{
 		ID: s.id, Level: "model_checking", Rule: s.rule, Subs: []*fw.Sub{s.sub},
 		BudgetQuick: s.budgetQ, BudgetThorough: s.budgetT, Assumptions: s.assumptions,
 		Run: func(c *fw.Ctx) {
-			if s.extra != nil {
-				s.extra(c, func(src string) { c.Do(s.sub, &progCase{Src: src}) })
-			}
-			maxLen := s.quickLen
-			if c.Thorough() {
-				maxLen = s.thorLen
-			}
-			// iterative deepening so that a deadline leaves a completed bound
-			for L := 1; L <= maxLen; L++ {
-				ok := gen.Sequences(s.alpha, L, s.maxNest, "; ", c.Mine, func(prog, shard string) int {
-					c.Do(s.sub, &progCase{Src: prog, Shard: shard})
-					if c.Expired() {
-						return gen.SeqStop
-					}
-					// a compile-time rejection is absorbing: every extension shares the offending
-					// prefix and is rejected with the same first diagnostic
-					if _, diag := ref.Parse(prog); diag != nil {
-						c.Count("rejected_prefixes_not_extended", 1)
-						return gen.SeqNoExtend
-					}
-					return gen.SeqExtend
-				})
-				if !ok {
-					c.Cap(fmt.Sprintf("deadline during sequences of length %d", L))
-					return
-				}
-				c.Bound("sequence_length_completed", L)
-			}
-			c.Bound("alphabet_size", len(s.alpha))
-			c.Bound("max_nesting", s.maxNest)
+			enumSeq(s, c, func(src, shard string) bool {
+				c.Do(s.sub, &progCase{Src: src, Shard: shard})
+				return !c.Expired()
+			})
 		},
 		Finish: func(m *fw.Merged) []string {
 			var v []string
@@ -70,10 +80,10 @@ func registerSeq(s seqSpec) {
 	})
 }
 
-func both(s string) gen.Sym     { return gen.Sym{Top: s, In: s} }
-func evalTop(s string) gen.Sym  { return gen.Sym{Top: "eval " + s, In: s} }
-func inOnly(s string) gen.Sym   { return gen.Sym{In: s} }
-func topOnly(s string) gen.Sym  { return gen.Sym{Top: s} }
+func both(s string) gen.Sym    { return gen.Sym{Top: s, In: s} }
+func evalTop(s string) gen.Sym { return gen.Sym{Top: "eval " + s, In: s} }
+func inOnly(s string) gen.Sym  { return gen.Sym{In: s} }
+func topOnly(s string) gen.Sym { return gen.Sym{Top: s} }
 
 func init() {
 	// C02 — lexical scoping and state flow of variables versus fields
@@ -132,7 +142,7 @@ func init() {
 			"the duplicate-child runtime error and the blocks returned alongside a runtime error are compared with the reference evaluator.",
 		sub: newRefSub("c03.seq"), alpha: a3,
 		quickLen: 5, thorLen: 6, maxNest: 3, budgetQ: 100, budgetT: 1500,
-		mustSee: []string{"accepted-ok", "accepted-rterr:dupchild", "accepted-rterr:divzero", "accepted-rterr:unresolved"},
+		mustSee:     []string{"accepted-ok", "accepted-rterr:dupchild", "accepted-rterr:divzero", "accepted-rterr:unresolved"},
 		assumptions: []string{"reading a closed child through its key and assigning a field under a closed child's key are left open by the documentation and excluded"},
 	})
 
